@@ -1276,9 +1276,38 @@ func (f *FuncCFG) expand(depth int, onStack map[*types.Func]bool) {
 					}
 				}
 			}
-			if len(tail.Nodes) == 2 && len(tail.Succs) == 2 {
-				if cond, isExpr := tail.Nodes[1].(ast.Expr); isExpr {
-					// boolean correlation: `v := helper(...)` followed at once by `if v` / `if !v`
+			// the result variables of the call must not be reassigned between the call and the test
+			// (statements in between that leave them alone, e.g. an unlock, are fine)
+			straight := len(tail.Nodes) >= 2 && len(tail.Succs) == 2
+			if as0, isAs := tail.Nodes[0].(*ast.AssignStmt); straight && isAs {
+				res := map[types.Object]bool{}
+				for _, l := range as0.Lhs {
+					if o := objOfIdent(f.Info, l); o != nil {
+						res[o] = true
+					}
+				}
+				for _, mid := range tail.Nodes[1 : len(tail.Nodes)-1] {
+					inspectNoLit(mid, func(m ast.Node) bool {
+						switch x := m.(type) {
+						case *ast.AssignStmt:
+							for _, l := range x.Lhs {
+								if res[objOfIdent(f.Info, l)] {
+									straight = false
+								}
+							}
+						case *ast.UnaryExpr:
+							if x.Op == token.AND && res[objOfIdent(f.Info, x.X)] {
+								straight = false
+							}
+						}
+						return straight
+					})
+				}
+			}
+			condIdx := len(tail.Nodes) - 1
+			if straight {
+				if cond, isExpr := tail.Nodes[condIdx].(ast.Expr); isExpr {
+					// boolean correlation: `v := helper(...)` followed (see above) by `if v` / `if !v`
 					{
 						c, neg := ast.Unparen(cond), false
 						for {
@@ -1333,7 +1362,7 @@ func (f *FuncCFG) expand(depth int, onStack map[*types.Func]bool) {
 						}
 					}
 				}
-				if cond, isExpr := tail.Nodes[1].(ast.Expr); isExpr && !boolCorr {
+				if cond, isExpr := tail.Nodes[condIdx].(ast.Expr); isExpr && !boolCorr {
 					if x, nonNilOnTrue, isTest := nilTest(f.Info, cond); isTest {
 						if as, isAs := tail.Nodes[0].(*ast.AssignStmt); isAs && len(as.Lhs) >= 1 && objOfIdent(f.Info, as.Lhs[len(as.Lhs)-1]) != nil && objOfIdent(f.Info, as.Lhs[len(as.Lhs)-1]) == objOfIdent(f.Info, x) {
 							sink := &cfg.Block{Kind: cfg.KindUnreachable, Live: false}
@@ -2053,6 +2082,18 @@ func (f *FuncCFG) evalAt(e ast.Expr, pt Point, assign map[string]bool, depth int
 			return false, true
 		}
 		if bt, isB := f.Info.TypeOf(id).Underlying().(*types.Basic); isB && bt.Info()&types.IsBoolean != 0 {
+			// a named guard `v := <expr>`: evaluate the expression where it was defined
+			if obj, _ := f.Info.Uses[id].(*types.Var); obj != nil {
+				if defs, fromEntry := f.ReachingDefs(pt, obj); len(defs) == 1 && !fromEntry && defs[0].Rhs != nil {
+					if as, isAs := f.nodeAt(defs[0].At).(*ast.AssignStmt); !isAs || len(as.Lhs) == len(as.Rhs) {
+						if _, isCall := ast.Unparen(defs[0].Rhs).(*ast.CallExpr); !isCall {
+							if v, k := f.evalAt(defs[0].Rhs, defs[0].At, assign, depth-1); k {
+								return v, true
+							}
+						}
+					}
+				}
+			}
 			vals := f.ValuesUnder(id, pt, assign)
 			if len(vals) == 1 {
 				switch vals[0] {
